@@ -81,10 +81,11 @@ def helper_role(path):
     elif len(rs) == 2 and f.arg_count == 1:
         vals = {}
         for p in rs:
-            d = [x for x in p.decisions if is_call(x[2], 'Option::<T>::is_none') and x[2][2][0][0] == 'call']
+            # canonical form: discr(optional field accessor(self)) = 0 (None) / 1 (Some), whatever the spelling (is_none, match, if let)
+            d = [x for x in p.cdecisions() if x[2][0] == 'discr' and x[2][1][0] == 'call' and x[2][1][2] and x[2][1][2][0] == ('param', f.local_name(1), 1)]
             if d:
                 vals[d[-1][3]] = p.ret()
-        if vals.get(1) == ('const', 1) and vals.get(0) == ('const', 0):
+        if vals.get(0) == ('const', 1) and vals.get(1) == ('const', 0):
             role = 'NL' if 'StateAnyTrans' in self_ty else 'IL'
     if role is None and f.arg_count == 3 and 'StateAnyTrans' in self_ty:
         vals = {r.ret() for r in rs}
@@ -178,11 +179,16 @@ def mirrored(e, is_pos):
 
 
 def rets(f, havoc=False):
+    """returning paths with the cases hidden in std combinators made explicit (vsplit); local helpers stay opaque calls"""
+    import vsplit
+    if _LIB[0] is not None:
+        return vsplit.vpaths(_LIB[0], f, enter=False, havoc=havoc)
     return [p for p in explore(f, max_visits=1, havoc=havoc) if p.end == 'return']
 
 
 def guard_val(p, pred):
-    d = [x for x in p.decisions if pred(x[2])]
+    """value of the last decision matching pred; decisions in canonical form (discr(X) = 0/1 for is_none / is_some / match / if let)"""
+    d = [x for x in p.cdecisions() if pred(x[2])]
     return d[-1][3] if d else None
 
 
